@@ -369,6 +369,19 @@ func (s *flowScope) expr(e ast.Expr) []flowNode {
 	case *ast.BinaryExpr:
 		return append(s.expr(v.X), s.expr(v.Y)...)
 	case *ast.SelectorExpr:
+		// a method of a tracked value used as a value (not called here) could be called anywhere
+		if cls := s.classOf(v.X); cls != "" && !strings.HasPrefix(cls, "nested:") {
+			if _, ok := flowPrims[cls+"."+v.Sel.Name]; ok {
+				return append(s.expr(v.X), opaque("method value %s.%s", cls, v.Sel.Name))
+			}
+			for _, t := range []string{"Install", "Upgrade", "Rollback", "Uninstall", "History", "Configuration", "Storage"} {
+				if flowTypeClass[t] == cls {
+					if _, ok := s.ctx.fns[t+"."+v.Sel.Name]; ok && !(cls == "action" && t != s.recvType()) {
+						return append(s.expr(v.X), opaque("method value %s.%s", t, v.Sel.Name))
+					}
+				}
+			}
+		}
 		return s.expr(v.X)
 	case *ast.IndexExpr:
 		return append(s.expr(v.X), s.expr(v.Index)...)
@@ -379,7 +392,20 @@ func (s *flowScope) expr(e ast.Expr) []flowNode {
 	case *ast.KeyValueExpr:
 		return append(s.expr(v.Key), s.expr(v.Value)...)
 	case *ast.CompositeLit:
-		return s.exprs(v.Elts)
+		out := s.exprs(v.Elts)
+		if flowTypeClass[flowTypeName(v.Type)] == "action" {
+			return out // an action struct keeps its configuration: followed through the field class action.cfg
+		}
+		for _, el := range v.Elts {
+			val := el
+			if kv, ok := el.(*ast.KeyValueExpr); ok {
+				val = kv.Value
+			}
+			if c := s.classOf(val); c != "" && c != "restcfg" && c != "memdriver" {
+				out = append(out, opaque("tracked value (%s) stored in a composite literal", c))
+			}
+		}
+		return out
 	case *ast.FuncLit:
 		// a closure that is not called on the spot: it may run any number of times from here on
 		// (dropped later when its body turns out to be free of effects)
@@ -613,6 +639,10 @@ func (s *flowScope) assign(lhs, rhs []ast.Expr, define bool) []flowNode {
 				continue
 			}
 			cls := s.classOf(lv.X)
+			if rc := s.classOf(r); r != nil && rc != "" && rc != "restcfg" && rc != "memdriver" && !(cls == "cfg") {
+				out = append(out, opaque("tracked value (%s) stored in a field", rc))
+				continue
+			}
 			switch {
 			case cls == "cfg" && (lv.Sel.Name == "KubeClient" || lv.Sel.Name == "Releases" || lv.Sel.Name == "Capabilities" || lv.Sel.Name == "RESTClientGetter"):
 				// the client may only become the printing fake, the store only a fresh memory store
